@@ -4,8 +4,11 @@
 
   The theorems are about the generic skeleton `Search.go` (Model/Search.lean), for ALL components
   `Comp` that satisfy `Laws` (C01–C05, C16 provide them on valid boards), all contents of the
-  persistent state (transposition table, histories), all limits, and every abort point: the stop
-  signal may become visible at any poll index `L.stop = some k`, the hard budget may expire at any node.
+  persistent state (transposition table, histories) that satisfy the invariant `PsInv.ok` the laws are
+  stated under (`go_keeps_ps_invariant`: every `go` preserves it; it is `True` for components whose
+  laws hold in every state, and `SearchReal.PSok` for the real components, Props/C06real.lean), all
+  limits, and every abort point: the stop signal may become visible at any poll index
+  `L.stop = some k`, the hard budget may expire at any node.
 -/
 import ChessVerif.Proofs.SearchGo
 import ChessVerif.Proofs.SearchRoot
@@ -16,23 +19,30 @@ import ChessVerif.Proofs.SearchFinalAbort
 namespace ChessVerif.Props.C06
 open ChessVerif Search
 
-variable {σ π : Type}
+variable {σ π : Type} [PsInv σ]
 
 /-- When `go` returns, the board equals the board it was given, on every path including every abort
     return and running out of fuel; the history stack is empty and the move store has no open frame. -/
 theorem go_board_restored (c : Comp σ π) (L : Limits) (clock : Clock) {Good : Board → Prop} (hl : Laws c Good)
-    (fuel : Nat) (e : Engine σ) (b : Board) (hg : Good b) (nodes0 : Int) :
+    (fuel : Nat) (e : Engine σ) (b : Board) (hg : Good b) (hok : PsInv.ok e.ps) (nodes0 : Int) :
     (go c L clock fuel e b nodes0).st.board = b ∧ (go c L clock fuel e b nodes0).st.hstack = [] ∧
       (go c L clock fuel e b nodes0).st.frames = 0 :=
-  let h := go_post c L clock hl fuel e b hg nodes0
+  let h := go_post c L clock hl fuel e b hg hok nodes0
   ⟨h.board, h.hstack, h.frames⟩
 
 /-- The returned move is the null move or playable in the root position (generated and not leaving
     the own king attacked — the FIDE-legal moves by C01). -/
 theorem go_move_legal_or_null (c : Comp σ π) (L : Limits) (clock : Clock) {Good : Board → Prop} (hl : Laws c Good)
-    (fuel : Nat) (e : Engine σ) (b : Board) (hg : Good b) (nodes0 : Int) :
+    (fuel : Nat) (e : Engine σ) (b : Board) (hg : Good b) (hok : PsInv.ok e.ps) (nodes0 : Int) :
     (go c L clock fuel e b nodes0).move = 0 ∨ (go c L clock fuel e b nodes0).move ∈ MoveGen.playable c.keys b :=
-  (go_post c L clock hl fuel e b hg nodes0).move_ok
+  (go_post c L clock hl fuel e b hg hok nodes0).move_ok
+
+/-- The invariant of the persistent state survives every `go` — completed, stopped at any poll, out
+    of budget at any node, out of fuel: the engine left behind is again an admissible prior state. -/
+theorem go_keeps_ps_invariant (c : Comp σ π) (L : Limits) (clock : Clock) {Good : Board → Prop} (hl : Laws c Good)
+    (fuel : Nat) (e : Engine σ) (b : Board) (hg : Good b) (hok : PsInv.ok e.ps) (nodes0 : Int) :
+    PsInv.ok (go c L clock fuel e b nodes0).engine.ps :=
+  (go_post c L clock hl fuel e b hg hok nodes0).ps_ok
 
 /-- The null move is returned only if the root is final, for every depth limit ≥ 1 — for runs that
     returned (`fuelOut = false`) and in which no ply-0 node produced a value outside the fail-soft
@@ -51,36 +61,40 @@ theorem go_move_legal_or_null (c : Comp σ π) (L : Limits) (clock : Clock) {Goo
     return the null move on a non-final root, so without a score-range law the unconditional
     statement `C06_full_null_only_if_final` is not a theorem of the generic skeleton. -/
 theorem go_null_only_if_final_partial (c : Comp σ π) (L : Limits) (clock : Clock) {Good : Board → Prop}
-    (hl : Laws c Good) (fuel : Nat) (e : Engine σ) (b : Board) (hg : Good b) (nodes0 : Int) (hd : 1 ≤ L.depth)
+    (hl : Laws c Good) (fuel : Nat) (e : Engine σ) (b : Board) (hg : Good b) (hok : PsInv.ok e.ps) (nodes0 : Int)
+    (hd : 1 ≤ L.depth)
     (hfuel : (go c L clock fuel e b nodes0).st.fuelOut = false)
     (hanom : (go c L clock fuel e b nodes0).st.anomaly = false)
     (hnull : (go c L clock fuel e b nodes0).move = 0) : Final c.keys b :=
-  go_null_final c L clock hl fuel e b hg nodes0 hd hfuel hanom hnull
+  go_null_final c L clock hl fuel e b hg hok nodes0 hd hfuel hanom hnull
 
 /-- Full statement (no `anomaly` hypothesis).  Missing for it: a law bounding evaluation and table
     scores by `±Inf` and the margins' int16 range, and the induction showing that `anomaly` then
     stays `false`. -/
 def C06_full_null_only_if_final (c : Comp σ π) (L : Limits) (clock : Clock) (Good : Board → Prop) : Prop :=
-  Laws c Good → ∀ (fuel : Nat) (e : Engine σ) (b : Board) (nodes0 : Int), Good b → 1 ≤ L.depth →
+  Laws c Good → ∀ (fuel : Nat) (e : Engine σ) (b : Board) (nodes0 : Int), Good b → PsInv.ok e.ps → 1 ≤ L.depth →
     (go c L clock fuel e b nodes0).st.fuelOut = false →
     (go c L clock fuel e b nodes0).move = 0 → Final c.keys b
 
+omit [PsInv σ] in
 /-- The same engine instance can be searched again: `refresh()` resets every per-search field, so
     the next search does not depend on the abort flag the previous one left behind (nor on its move
     store, history stack and counters, which `go` re-initialises), only on tables and PV buffer. -/
 theorem go_reusable (c : Comp σ π) (L : Limits) (clock : Clock) (fuel : Nat) (e : Engine σ) (b : Board) (nodes0 : Int)
     (flag : Bool) : go c L clock fuel { e with aborted := flag } b nodes0 = go c L clock fuel e b nodes0 := rfl
 
-/-- Second half of "reusable": the engine left behind by any search is again a valid input. -/
+/-- Second half of "reusable": the engine left behind by any search (of a `Good` position, from an
+    admissible prior state) is again a valid input — `go_keeps_ps_invariant` — so the next search
+    restores its board as well. -/
 theorem go_again_restores (c : Comp σ π) (L L' : Limits) (clock clock' : Clock) {Good : Board → Prop} (hl : Laws c Good)
-    (fuel fuel' : Nat) (e : Engine σ) (b b' : Board) (hg' : Good b') (nodes0 : Int) :
+    (fuel fuel' : Nat) (e : Engine σ) (b b' : Board) (hg : Good b) (hg' : Good b') (hok : PsInv.ok e.ps) (nodes0 : Int) :
     (go c L' clock' fuel' (go c L clock fuel e b nodes0).engine b').st.board = b' :=
-  (go_post c L' clock' hl fuel' _ b' hg' 0).board
+  (go_post c L' clock' hl fuel' _ b' hg' (go_keeps_ps_invariant c L clock hl fuel e b hg hok nodes0) 0).board
 
 /-- Full statement of the last clause of C06 (completed search on a final root returns the null
     move with score 0, or the mated score for checkmate); not proved here. -/
 def C06_full_final_score (c : Comp σ π) (L : Limits) (clock : Clock) (Good : Board → Prop) : Prop :=
-  Laws c Good → ∀ (fuel : Nat) (e : Engine σ) (b : Board) (nodes0 : Int), Good b → 1 ≤ L.depth →
+  Laws c Good → ∀ (fuel : Nat) (e : Engine σ) (b : Board) (nodes0 : Int), Good b → PsInv.ok e.ps → 1 ≤ L.depth →
     L.stop = none → L.nodes = -1 → Final c.keys b →
     (go c L clock fuel e b nodes0).st.fuelOut = false →
     (go c L clock fuel e b nodes0).move = 0 ∧
@@ -99,7 +113,7 @@ example (K : Keys) : Final K Board.empty := Or.inl (by
 
 example (K : Keys) (L : Limits) (clock : Clock) (fuel : Nat) (e : Engine Unit) :
     (go (demoComp K) L clock fuel e Board.empty).st.board = Board.empty :=
-  (go_board_restored (demoComp K) L clock (demo_laws K) fuel e Board.empty noMen_empty 0).1
+  (go_board_restored (demoComp K) L clock (demo_laws K) fuel e Board.empty noMen_empty trivial 0).1
 
 /-! ## Score range, the null move without the ghost flag, final roots
 
@@ -124,6 +138,7 @@ example (K : Keys) (L : Limits) (clock : Clock) (fuel : Nat) (e : Engine Unit) :
       at the root.  In-range scores alone do not exclude the sequence
       `s = 9956, nine fail-lows, fail-high at beta = 10000 → beta = 32528`. -/
 
+omit [PsInv σ] in
 /-- `EvalRange`, now a theorem: the evaluation the search uses lies strictly inside the mate band
     `(-Inf+MaxPlies, Inf-MaxPlies)`, whatever the raw `eval.Eval` returns. -/
 theorem eval_range (c : Comp σ π) (b : Board) : (-10000 : Int) + 64 < evaluate c b ∧ evaluate c b < (10000 : Int) - 64 :=
